@@ -116,7 +116,23 @@ def run_pipeline(texts, tag):
         with open(tmp, "w") as fh:
             json.dump(out, fh)
         os.replace(tmp, path)
+        prune_cache()
         return out
+
+
+def prune_cache(keep=10):
+    """the cache is keyed by the hashes of /repo and /verif: stale entries pile up while either changes"""
+    try:
+        files = sorted((f for f in os.listdir(CACHE) if f.startswith("pipe-") and f.endswith(".json")),
+                       key=lambda f: os.path.getmtime(os.path.join(CACHE, f)), reverse=True)
+        for f in files[keep:]:
+            for g in (f, f[:-5] + ".lock"):
+                try:
+                    os.remove(os.path.join(CACHE, g))
+                except OSError:
+                    pass
+    except OSError:
+        pass
 
 
 def search_failing(text, prog, packet, seed, tries=60):
